@@ -39,6 +39,7 @@ Local Open Scope N_scope.
 # their former witnesses are ordinary regression cases now
 KEY_ZERO = "zero-duration-events-twice"
 KEY_GAP = "watch-first-event-1ns"
+KEY_ROOM = "events-refused-when-args-fill-buffer"
 
 
 # ---------------------------------------------------------------- observations
@@ -77,9 +78,11 @@ OVALS = {}          # literal -> name: every distinct observation is defined onc
 
 def coq_oval(o):
     m = obs_model(o)
-    lit = "(Build_oval [%s] [%s] [%s] [%s] [%s] (%d)%%Z %d)" % (
+    asz = o.get("asz")
+    lit = "(Build_oval [%s] [%s] [%s] [%s] [%s] (%d)%%Z %d %s)" % (
         "; ".join(map(str, m["statm"])), "; ".join(map(str, m["pf"])), "; ".join(map(str, m["cycle"])),
-        "; ".join(map(str, m["cache"])), "; ".join(map(str, m["branch"])), m["cpu"], m["var"])
+        "; ".join(map(str, m["cache"])), "; ".join(map(str, m["branch"])), m["cpu"], m["var"],
+        "None" if asz is None else "(Some %d)" % asz)
     if lit not in OVALS:
         OVALS[lit] = "ov%d" % len(OVALS)
     return OVALS[lit]
@@ -87,6 +90,50 @@ def coq_oval(o):
 
 def oval_defs():
     return "".join("Definition %s := %s.\n" % (n, lit) for lit, n in OVALS.items())
+
+
+# strings the harness knows (STR <i> <hex>): i = 0..24 has length 4i+2 and takes 4i+4 bytes of argument data
+# (2-byte length, characters, padded to 4); 30.. are return values (the last two are cut at ARG_STR_MAX with "...")
+POOL_LEN = [4 * i + 2 for i in range(25)]
+RET_STR = {30: 5, 31: 50, 32: 98, 33: 99, 34: 150}
+MAX_ARGS = 1020         # save_to_argbuf: max_size = ARGBUF_SIZE - 4
+ROOM_ARGS = 684         # asz_ok of the model: room for all ten events of a frame
+
+
+def str_lines():
+    out = ["STR %d %s" % (i, ("%02x" % (97 + i % 26)) * ln) for i, ln in enumerate(POOL_LEN)]
+    out += ["STR %d %s" % (i, "7a" * ln) for i, ln in sorted(RET_STR.items())]
+    return out
+
+
+def pick_strings(rng, n, total):
+    """n pool indices whose sizes (4i+4) add up to `total` (a multiple of 4 in [4n, 100n])"""
+    rest = total // 4 - n           # sum of the indices
+    idx = []
+    for j in range(n):
+        left = n - j - 1
+        lo, hi = max(0, rest - 24 * left), min(24, rest)
+        i = rng.randint(lo, hi)
+        idx.append(i)
+        rest -= i
+    rng.shuffle(idx)
+    return idx
+
+
+def pick_total(rng, n, kinds=()):
+    r = rng.random()
+    if r < 0.45:        # exactly at / 4 bytes around a point where one more event stops fitting: the event of size e
+        #                 after u bytes of events starts at 1024 - u - e, the arguments end at 4 + t
+        sizes = [40 if k == "statm" else 32 for k in kinds] * 2
+        cums = [sum(sizes[:i + 1]) for i in range(len(sizes))] or [32 * rng.randrange(1, 9)]
+        t = 1020 - rng.choice(cums) + rng.choice([-4, 0, 0, 4])
+    elif r < 0.65:
+        t = rng.randrange(640, 1036, 4)
+    elif r < 0.85:
+        t = rng.randrange(4 * n, 640, 4)
+    else:               # too big: save_argument gives up, the frame has no argument data
+        t = rng.choice([1024, 1028, 1040, 1100])
+    return max(4 * n, min(100 * n, t))
 
 
 SZ_LIT = "[%s]" % "; ".join("(%d, %d)" % (256 * i, z) for i, z in enumerate(mch.SIZES))
@@ -160,22 +207,43 @@ def gen_case(rng, klass):
     wild = rng.random() < 0.2
     hooks = []
 
+    args, rets, sargs, srets = [], [], {}, []
+    if not pure_cpu and rng.random() < 0.5:
+        # argument / return-value capture sharing the per-frame buffer with the events: one 8-byte value, or (sargs) a
+        # list of strings whose total size is aimed at the points where the events stop fitting; string return values
+        pool = sorted(set(list(reads) + [rng.randrange(6)]))
+        chosen = sorted(rng.sample(pool, rng.randrange(1, len(pool) + 1)))
+        for k in chosen:
+            if rng.random() < 0.6:
+                sargs[k] = rng.choice([11, 11, 12, 14])
+            else:
+                args.append(k)
+        for k in pool:
+            r = rng.random()
+            if r < 0.25:
+                rets.append(k)
+            elif r < 0.5:
+                srets.append(k)
+
     def walk(c):
         nonlocal o
         o = step_obs(rng, o, wild)
-        o0 = o
+        o0 = dict(o)
+        if c.k in sargs:
+            tot = pick_total(rng, sargs[c.k], [x for x in KINDS if x in reads.get(c.k, []) and (pmu or x in ("statm", "pf"))])
+            o0["strs"] = pick_strings(rng, sargs[c.k], tot)
+            o0["asz"] = tot if tot <= MAX_ARGS else None
+        elif c.k in args:
+            o0["asz"] = 8
         kids = [walk(k) for k in c.kids]
         o = step_obs(rng, o, wild)
-        return {"k": c.k, "t0": c.t0, "t1": c.t1, "o0": o0, "o1": o, "kids": kids}
+        o1 = dict(o)
+        if c.k in srets:
+            o1["rstr"] = rng.choice(sorted(RET_STR))
+        return {"k": c.k, "t0": c.t0, "t1": c.t1, "o0": o0, "o1": o1, "kids": kids}
     xf = [walk(c) for c in fo]
-    args, rets = [], []
-    if not pure_cpu and rng.random() < 0.4:
-        # argument / return-value capture sharing the per-frame buffer with the events (one 8-byte value each)
-        pool = sorted(set(list(reads) + [rng.randrange(6)]))
-        args = sorted(rng.sample(pool, rng.randrange(1, len(pool) + 1)))
-        rets = sorted(k for k in pool if rng.random() < 0.4)
     case = {"klass": klass, "cfg": cfg, "reads": reads, "wcpu": wcpu, "wvar": wvar, "pmu": pmu, "xforest": xf,
-            "pure_cpu": pure_cpu, "args": args, "rets": rets}
+            "pure_cpu": pure_cpu, "args": args, "rets": rets, "sargs": sargs, "srets": srets}
     evs = xflatten(xf)
     if klass == "any" and rng.random() < 0.1:
         evs = evs[:rng.randrange(1, len(evs) + 1)]
@@ -240,6 +308,11 @@ def fixed_cases():
         c["complete"] = True
         c.setdefault("args", [])
         c.setdefault("rets", [])
+        c.setdefault("sargs", {})
+        c.setdefault("srets", [])
+        for e in c["evs"]:
+            if e[0] == "E" and e[1] in c["args"]:
+                e[3]["asz"] = 8
     return out
 
 
@@ -269,10 +342,13 @@ def case_env(case):
         env["UFTRACE_TRIGGER"] = ";".join(([env["UFTRACE_TRIGGER"]] if env.get("UFTRACE_TRIGGER") else []) + tg)
     def pat(k):
         return {"simple": "f%d" % k, "regex": "^f%d$" % k, "glob": "f%d" % k}[pt]
-    if case.get("args"):
-        env["UFTRACE_ARGUMENT"] = ";".join(pat(k) + "@arg1" for k in case["args"])
-    if case.get("rets"):
-        env["UFTRACE_RETVAL"] = ";".join(pat(k) + "@retval" for k in case["rets"])
+    al = [pat(k) + "@arg1" for k in case.get("args", [])]
+    al += [pat(k) + "@" + ",".join("arg%d/s" % i for i in range(1, n + 1)) for k, n in sorted(case.get("sargs", {}).items())]
+    if al:
+        env["UFTRACE_ARGUMENT"] = ";".join(al)
+    rl = [pat(k) + "@retval" for k in case.get("rets", [])] + [pat(k) + "@retval/s" for k in case.get("srets", [])]
+    if rl:
+        env["UFTRACE_RETVAL"] = ";".join(rl)
     w = []
     if case["wcpu"]:
         w.append("cpu")
@@ -303,27 +379,55 @@ def set_obs_lines(prev, o):
 
 
 def uses_payload(case):
-    return bool(case.get("args") or case.get("rets"))
+    return bool(case.get("args") or case.get("rets") or case.get("sargs") or case.get("srets"))
 
 
 def script_of(case):
     cyg = case["cfg"].get("shape") == "cyg"
     raw = uses_payload(case)
     lines = ["AUTOSTATE 2", "VALX statm_on 1", "VALX pmu_on %d" % (1 if case["pmu"] else 0)]
+    if case.get("sargs") or case.get("srets"):
+        lines += str_lines()
     prev = None
     for e in case["evs"]:
         lines += set_obs_lines(prev, e[3])
         prev = e[3]
         if e[0] == "E":
-            lines.append(("CE %d %d" if cyg else ("EA %d %d 7" if raw else "E %d %d")) % (e[1], e[2]))
+            if cyg:
+                lines.append("CE %d %d" % (e[1], e[2]))
+            elif not raw:
+                lines.append("E %d %d" % (e[1], e[2]))
+            elif "strs" in e[3]:
+                lines.append("EA %d %d %s" % (e[1], e[2], " ".join("@S%d" % i for i in e[3]["strs"])))
+            else:
+                lines.append("EA %d %d 7" % (e[1], e[2]))
         else:
-            lines.append("CX %d %d" % (e[1], e[2]) if cyg else ("XR %d 42" if raw else "X %d") % e[2])
+            if cyg:
+                lines.append("CX %d %d" % (e[1], e[2]))
+            elif not raw:
+                lines.append("X %d" % e[2])
+            elif "rstr" in e[3]:
+                lines.append("XR %d @S%d" % (e[2], e[3]["rstr"]))
+            else:
+                lines.append("XR %d 42" % e[2])
     lines += ["BASE", "DUMPRAW"] if raw else ["DUMP"]
     return lines
 
 
-def parse_stream_raw(out):
-    """the same items from DUMPRAW (ENTRY/EXIT records may carry one 8-byte argument / return value)"""
+def payload_len(b, off, nstr):
+    """bytes of an argument / return-value payload at b[off:]: nstr strings (2-byte length + characters, padded to 4)
+    or one 8-byte value (nstr = 0); the payload is padded to 8 in the stream"""
+    if nstr == 0:
+        return 8
+    n = 0
+    for _ in range(nstr):
+        ln = int.from_bytes(b[off + n:off + n + 2], "little")
+        n += (ln + 2 + 3) & ~3
+    return (n + 7) & ~7
+
+
+def parse_stream_raw(out, case):
+    """the same items from DUMPRAW (ENTRY/EXIT records may carry captured arguments / a return value)"""
     base, hx = None, ""
     for l in out:
         if l.startswith("BASE "):
@@ -331,6 +435,8 @@ def parse_stream_raw(out):
         elif l.startswith("DUMPRAW"):
             hx = l[7:].strip()
     b = bytes.fromhex(hx)
+    sargs = case.get("sargs", {})
+    srets = case.get("srets", [])
     off, items = 0, []
     while off + 16 <= len(b):
         t = int.from_bytes(b[off:off + 8], "little")
@@ -346,10 +452,14 @@ def parse_stream_raw(out):
             d = [int.from_bytes(data[i:i + size], "little") for i in range(0, len(data), size)]
             items.append(("E", t, addr, d[1:] if addr == ID_VAR else d))
         else:
-            if more:
-                off += 8
             rel = addr - (base & ((1 << 48) - 1))
-            a = ("f", rel // 256, rel % 256) if 0 <= rel < 32 * 256 else ("x", addr, 0)
+            k = rel // 256
+            if more:
+                if ty == 0:
+                    off += payload_len(b, off, sargs.get(k, 0))
+                else:
+                    off += payload_len(b, off, 1 if k in srets else 0)
+            a = ("f", k, rel % 256) if 0 <= rel < 32 * 256 else ("x", addr, 0)
             items.append(("R", t, ty, magic, depth, mch.addr_canon(a)))
     return items
 
@@ -423,7 +533,7 @@ def run_case(h, case, slot=0):
             states.append(tuple(cur) + (int(k[1]), k[2] == "1", int(k[3])))
             cur = None
     errno_ok = all(l.split()[-1] == "1" for l in out if l[:2] in ("E ", "X ", "CE", "CX") and len(l.split()) >= 2)
-    items = parse_stream_raw(out) if uses_payload(case) else parse_stream(out)
+    items = parse_stream_raw(out, case) if uses_payload(case) else parse_stream(out)
     return {"states": states, "items": items, "errno_ok": errno_ok, "out": out, "err": err}
 
 
@@ -489,6 +599,13 @@ def read_calls_positive(case):
     return ok
 
 
+def room_ok(case):
+    """every call of a function with read= triggers leaves room for all its events (the guard of C17_read_diff)"""
+    if case["cfg"].get("shape") == "cyg":
+        return True             # cygprof ignores argument capture
+    return all(not (e[0] == "E" and e[1] in case["reads"] and (e[3].get("asz") or 0) > ROOM_ARGS) for e in case["evs"])
+
+
 def watch_spec_applicable(case):
     """threshold 0, every call takes time, hook times >= 2 apart, the pending queue never fills (model-free count
     of the changes since the last EXIT)"""
@@ -537,8 +654,18 @@ def inproc(ctx):
                 tags.append("pmu-unavailable")
             if uses_payload(case):
                 tags.append("with-arg/retval-capture")
-                if set(case["args"] + case["rets"]) & set(case["reads"]):
+                if set(case["args"] + case["rets"] + list(case.get("sargs", {})) + case.get("srets", [])) & set(case["reads"]):
                     tags.append("read+capture-on-one-function")
+                if case.get("srets"):
+                    tags.append("string-return-value")
+                if case["cfg"].get("shape") != "cyg":
+                    big = [e[3].get("asz") for e in case["evs"] if e[0] == "E" and e[1] in case["reads"] and "strs" in e[3]]
+                    if any(a is None for a in big):
+                        tags.append("args-too-big-for-the-buffer")
+                    if any(a is not None and a > ROOM_ARGS for a in big):
+                        tags.append("args-leave-no-room-for-all-events")
+                    if any(a is not None and a <= ROOM_ARGS for a in big):
+                        tags.append("string-args-with-room")
             if not hook_gaps_ok(case["evs"]):
                 tags.append("hook-gap-1ns")
             if any(s[9] >= 4 for s in res["states"]):
@@ -549,7 +676,7 @@ def inproc(ctx):
                 tags.append("zero-duration-read-call")
             nev = sum(1 for it in res["items"] if it[0] == "E")
             ctx.case(key=(repr(case["cfg"]), repr(case["reads"]), case["wcpu"], case["wvar"], repr(case.get("args")),
-                          repr(case.get("rets")), repr(case["evs"])),
+                          repr(case.get("rets")), repr(case.get("sargs")), repr(case.get("srets")), repr(case["evs"])),
                      nontrivial=len(case["evs"]) >= 4 and nev > 0, tags=tags, size=len(case["evs"]),
                      sample=sample_of(case) if len(ctx.samples) < 3 and nev > 2 else None)
     ctx.log("in-process runs done: %d cases" % len(cases))
@@ -570,7 +697,7 @@ def threads(ctx):
         base = gen_case(rng, klass)
         base["wvar"] = False
         base["wcpu"] = True
-        base["args"], base["rets"] = [], []
+        base["args"], base["rets"], base["sargs"], base["srets"] = [], [], {}, []
         base["cfg"].pop("max_stack", None)
         for tr in base["cfg"]["trig"].values():      # mcount_enabled is one switch for the whole process, the model is
             tr.pop("trace_on", None)                 # per thread: no trace_on/trace_off under interleaved threads
@@ -578,9 +705,13 @@ def threads(ctx):
         per = [base]
         for _ in range(nth - 1):
             c = gen_case(rng, klass)
-            for k in ("cfg", "reads", "wcpu", "wvar", "pmu", "pure_cpu", "args", "rets"):
+            for k in ("cfg", "reads", "wcpu", "wvar", "pmu", "pure_cpu", "args", "rets", "sargs", "srets"):
                 c[k] = base[k]
             per.append(c)
+        for c in per:                                # no capture in the thread cases
+            for e in c["evs"]:
+                for key in ("asz", "strs", "rstr"):
+                    e[3].pop(key, None)
         cyg = base["cfg"].get("shape") == "cyg"
         lines = ["AUTOSTATE 2", "VALX statm_on 1", "VALX pmu_on %d" % (1 if base["pmu"] else 0)]
         pos = [0] * nth
@@ -644,7 +775,7 @@ def sample_of(case):
 def replay_obj(case, extra=None):
     o = {"mode": "inproc", "klass": case["klass"], "cfg": case["cfg"], "reads": case["reads"], "wcpu": case["wcpu"],
          "wvar": case["wvar"], "pmu": case["pmu"], "args": case.get("args", []), "rets": case.get("rets", []),
-         "events": case["evs"], "env": case_env(case),
+         "sargs": case.get("sargs", {}), "srets": case.get("srets", []), "events": case["evs"], "env": case_env(case),
          "impl_states": case["res"]["states"], "impl_stream": case["res"]["items"]}
     if case.get("thread_script"):
         o["thread_script"] = case["thread_script"]
@@ -668,13 +799,13 @@ def evaluate(ctx, cases, name="c17_cases"):
     defs = case_defs(cases)
     # flags: which checker applies to which case
     nest = [c["complete"] and not has_switch(c["cfg"]) for c in cases]
-    adj = [c["complete"] and not has_switch(c["cfg"]) and read_calls_positive(c) for c in cases]
+    adj = [c["complete"] and not has_switch(c["cfg"]) and read_calls_positive(c) and room_ok(c) for c in cases]
     tim = [c["complete"] and not has_switch(c["cfg"]) and hook_gaps_ok(c["evs"]) for c in cases]
     defs += "Definition nestchk : list bool := [%s].\n" % "; ".join(map(coq.coq_bool, nest))
     defs += "Definition adjchk : list bool := [%s].\n" % "; ".join(map(coq.coq_bool, adj))
     defs += "Definition timchk : list bool := [%s].\n" % "; ".join(map(coq.coq_bool, tim))
     spec = [(i, c) for i, c in enumerate(cases) if c["klass"] == "plain" and c["complete"] and read_calls_positive(c)
-            and F_height(c["xforest"]) <= (c["cfg"].get("max_stack") or 1024)]
+            and room_ok(c) and F_height(c["xforest"]) <= (c["cfg"].get("max_stack") or 1024)]
     defs += ("Definition d0 : xcfg * list xev * list xobs * list oitem := "
              "(mkxcfg (mkcfg [] false false 0 0 0 [] PG) [] false false false, [], [], []).\n")
     defs += "Definition speccases : list bool := [\n%s\n].\n" % ";\n".join(
@@ -851,6 +982,21 @@ def known(ctx):
                       {"mode": "witness", "script": script, "env": env, "out": out[-12:]}, True)
     ctx.known_finding(KEY_ZERO, "a recorded call whose ENTRY and EXIT carry the same time stamp gets every read and diff event "
                       "twice", still_fails=len(ids) == 4, replay={"mode": "witness", "script": script, "env": env})
+    # captured arguments that fill the frame buffer: the events of the function are refused (C17_read_diff_no_room_refuted)
+    strs = [24] * 9 + [12, 11]                     # 9 * 100 + 52 + 48 = 1000 bytes of argument data
+    env = {"UFTRACE_TRIGGER": "f0@read=page-fault", "UFTRACE_ARGUMENT": "f0@" + ",".join("arg%d/s" % i for i in range(1, 12))}
+    script = str_lines() + ["VAL pagefault 5", "EA 0 100 " + " ".join("@S%d" % i for i in strs), "VAL pagefault 9", "XR 200 42",
+                            "BASE", "DUMPRAW"]
+    out, _ = run_script(h, script, env, 95)
+    st = parse_stream_raw(out, {"sargs": {0: 11}, "srets": []})
+    ids = [it[2] for it in st if it[0] == "E"]
+    recs = [(it[1], it[2]) for it in st if it[0] == "R"]
+    ctx.case(key=("known", KEY_ROOM), tags=["known:" + KEY_ROOM], sample={"env": env, "event_ids": ids, "records": recs})
+    if recs != [(100, 0), (200, 1)] or ids not in ([], [100002, 100004]):
+        ctx.violation("C17: read=page-fault with 1000 bytes of captured arguments: unexpected stream %r / %r" % (recs, ids),
+                      {"mode": "witness", "script": script, "env": env, "out": out[-6:]}, True)
+    ctx.known_finding(KEY_ROOM, "a function with read= whose captured arguments fill the frame buffer loses its events",
+                      still_fails=ids == [], replay={"mode": "witness", "script": script, "env": env})
     # the hook after a thread's first hook comes 1 ns later: an event is written inside a call that starts after
     # the event's time stamp (C17_watch_times_gap1_refuted)
     script = ["VAL cpu 1", "E 0 100", "VAL cpu 2", "E 1 101", "VAL cpu 3", "X 102", "VAL cpu 4", "X 200", "DUMP"]
@@ -884,8 +1030,10 @@ def meta(ctx):
     ctx.rule = ("three classes of generated cases over 6 functions: 'plain' (-t/-D only, read= triggers with 1-5 kinds on 1-3 "
                 "functions, both shapes, three pattern syntaxes), 'watch0' (threshold 0, read= + -W cpu / -W var), 'any' "
                 "(C05 filter/trigger tables incl. trace_on/off, --max-stack overflow, zero durations, truncated histories, "
-                "read= + watch); in 40% of the cases one captured argument / return value on 1-3 functions, preferably those with "
-                "read= triggers (events and arguments share the frame buffer); random call forests, durations around the thresholds, hook gaps 1/2/5/50 ns, observation "
+                "read= + watch); in 50% of the cases argument / return-value capture on 1-3 functions, preferably those with read= "
+                "triggers: one 8-byte value, or 11-14 string arguments whose total size per call is aimed at the byte where the "
+                "next event stops fitting (exactly, +-4), below, or beyond the 1020-byte limit; string return values of 5..150 "
+                "characters; random call forests, durations around the thresholds, hook gaps 1/2/5/50 ns, observation "
                 "sequences with growing/shrinking counters (negative differences), cpu/var values that change or stay; "
                 "distinct = distinct (cfg, reads, watch, events+observations); non-trivial = >=4 hooks and >=1 event recorded")
     ctx.trusted = [
@@ -898,9 +1046,10 @@ def meta(ctx):
     ]
     ctx.assume = [
         "asynchronous (SDT) events, scripts and the finish/recover triggers are outside the model",
-        "argument / return-value payloads are not part of the stream model: the tie generates one 8-byte argument / return "
-        "value on functions that may also have read= triggers (every event fits, C17_event_area_disjoint / C17_guard_exact "
-        "at buffer level); argument areas large enough to make the guard reject an event are not generated",
+        "the SIZE of the captured argument data is an input of the model (computed by the driver from the -A specification "
+        "and the string lengths it passes: 2-byte length + characters, padded to 4; more than 1020 bytes = no capture); the "
+        "argument / return-value bytes themselves are not modelled (C09); the extent of what save_retval writes (<= 105 bytes) "
+        "is read from the source and tied by generated string return values of 5..150 characters",
         "one thread per case for -W var (the global watch item is shared between threads); no trace_on/trace_off under "
         "interleaved threads (mcount_enabled is one switch for the whole process, the model is per thread)",
         "stream-level placement of watch events is a theorem only on the bounded domain of C17_watch_stream_small; "
@@ -931,7 +1080,8 @@ def replay(ctx, obj):
     cfg["trig"] = {int(k): v for k, v in cfg.get("trig", {}).items()}
     case = {"klass": obj.get("klass", "any"), "cfg": cfg, "reads": {int(k): v for k, v in obj["reads"].items()},
             "wcpu": obj["wcpu"], "wvar": obj["wvar"], "pmu": obj["pmu"], "args": obj.get("args", []),
-            "rets": obj.get("rets", []),
+            "rets": obj.get("rets", []), "sargs": {int(k): v for k, v in obj.get("sargs", {}).items()},
+            "srets": obj.get("srets", []),
             "evs": [tuple(e) for e in obj["events"]], "complete": False, "xforest": []}
     case["res"] = run_case(h, case)
     ctx.case(key="replay", sample=sample_of(case))
